@@ -255,6 +255,15 @@ pub fn run(ctx: &mut e2rt::Ctx) {{
     return cid, "\n".join(parts)
 
 
+def locked_version(repo, crate):
+    """Version of `crate` in the repository's Cargo.lock (the generated crates pin to it, so that
+    adding dependencies never re-resolves serde to a newer release)."""
+    import re
+    lock = open(os.path.join(repo, "Cargo.lock")).read()
+    m = re.search(r'name = "%s"\nversion = "([^"]+)"' % re.escape(crate), lock)
+    return m.group(1)
+
+
 def sync_tree(root, files):
     """Make directory `root` contain exactly `files` (relpath -> text); untouched files keep their
     mtime so that cargo does not rebuild them."""
@@ -279,7 +288,7 @@ def sync_tree(root, files):
                 os.remove(p)
 
 
-def corpus_files(corpus, cases, n_shards, repo="/repo", verif="/verif", features=("serde-json-impl",), exclude=()):
+def corpus_files(corpus, cases, n_shards, repo="/repo", verif="/verif", features=("serde-json-impl",), exclude=(), extra_deps=""):
     """Files of the shard crates `<corpus>_<i>` (paths relative to the corpus directory)."""
     files = {}
     shards = [[] for _ in range(n_shards)]
@@ -289,6 +298,7 @@ def corpus_files(corpus, cases, n_shards, repo="/repo", verif="/verif", features
         shards[i % n_shards].append((i, c))
     index = {}
     feat = ", ".join(json.dumps(f) for f in features)
+    serde_ver, serde_json_ver = locked_version(repo, "serde"), locked_version(repo, "serde_json")
     for si, sh in enumerate(shards):
         d = f"s{si}"
         files[f"{d}/Cargo.toml"] = f"""[package]
@@ -299,9 +309,9 @@ edition = "2021"
 [dependencies]
 ts-rs = {{ path = "{repo}/ts-rs", features = [{feat}] }}
 e2rt = {{ path = "{verif}/harness/e2rt" }}
-serde = {{ version = "1", features = ["derive"] }}
-serde_json = "1"
-"""
+serde = {{ version = "={serde_ver}", features = ["derive", "rc"] }}
+serde_json = "={serde_json_ver}"
+{extra_deps}"""
         mods = []
         runs = []
         for i, c in sh:
